@@ -109,8 +109,7 @@ var c01Consults = []struct {
 func c01(w *core.World, r *core.Report) {
 	low := w.Func("pkg/datastore", "Datastore", "lowlevelTransactionSet")
 	expand := w.Func("pkg/datastore", "Datastore", "expandAndConvertIntent")
-	loadHigh := w.Func("pkg/datastore", "", "loadIntendedStoreHighestPrio")
-	if low == nil || expand == nil || loadHigh == nil {
+	if low == nil || expand == nil {
 		return
 	}
 
@@ -148,7 +147,7 @@ func c01(w *core.World, r *core.Report) {
 
 	// ---- LOOKAHEAD
 	r.Rule("LOOKAHEAD", 1, "the number of alternatives loaded per involved path (count argument of ReadCurrentUpdatesHighestPriorities) must not be a compile-time constant independent of the number of intents the transaction removes: entries of the transaction's own intents are filtered out after the top-count read, so with a constant K a transaction naming the K highest owners of a path never sees the (K+1)-th, which must rule afterwards.")
-	for _, c := range core.CallsTo(loadHigh, "tree.TreeCacheClient.ReadCurrentUpdatesHighestPriorities") {
+	for _, c := range core.CallsTo(low, "tree.TreeCacheClient.ReadCurrentUpdatesHighestPriorities") {
 		args := core.CallArgs(c)
 		if len(args) != 3 {
 			continue
@@ -157,7 +156,7 @@ func c01(w *core.World, r *core.Report) {
 		if cv, ok := args[2].(*ssa.Convert); ok {
 			cval, isConst = core.ConstInt(cv.X)
 		}
-		r.Check(!isConst, "LOOKAHEAD", core.Site(loadHigh, "count=%d", cval), w.InstrPos(c), "alternatives are read with a constant depth; a transaction that removes that many top owners of a path deletes the path on the device although a further owner still defines it (reproduced: A(10),B(20),C(30), delete A+B => device delete)")
+		r.Check(!isConst, "LOOKAHEAD", core.Site(low, "count=%d", cval), w.InstrPos(c), "alternatives are read with a constant depth; a transaction that removes that many top owners of a path deletes the path on the device although a further owner still defines it (reproduced: A(10),B(20),C(30), delete A+B => device delete)")
 	}
 
 	// ---- PIPELINE-ORDER
@@ -166,8 +165,9 @@ func c01(w *core.World, r *core.Report) {
 		L := firstCall(low, "tree.RootEntry.LoadIntendedStoreOwnerData")
 		S := firstCall(low, "datastore/types.Transaction.AddIntentContent")
 		A := firstCall(low, "tree.RootEntry.AddCacheUpdatesRecursive")
-		H := firstCall(low, "datastore.loadIntendedStoreHighestPrio")
-		R := firstCall(low, "datastore.populateTreeWithRunning")
+		// the two loaders are known by the store reads they wrap (the helpers around them are part of the pipeline)
+		H := firstCall(low, "tree.TreeCacheClient.ReadCurrentUpdatesHighestPriorities")
+		R := firstCall(low, "tree.TreeCacheClient.ReadRunningFull")
 		F := firstCall(low, "tree.sharedEntryAttributes.FinishInsertionPhase", "tree.RootEntry.FinishInsertionPhase")
 		V := firstCall(low, "tree.RootEntry.Validate")
 		G := firstCall(low, "tree.RootEntry.GetHighestPrecedence")
@@ -265,22 +265,32 @@ func c01(w *core.World, r *core.Report) {
 // ruleInvolvedPaths: the set of paths for which alternatives are loaded is one accumulator over all intents
 // (shared by C01.PIPELINE-ORDER and C09.INVOLVED-PATHS).
 func ruleInvolvedPaths(w *core.World, r *core.Report, low *ssa.Function, rule string) {
-	H := firstCall(low, "datastore.loadIntendedStoreHighestPrio")
-	// the argument handed to loadIntendedStoreHighestPrio is ONE PathSet made before the loop, joined with old and new content
+	H := firstCall(low, "tree.TreeCacheClient.ReadCurrentUpdatesHighestPriorities")
+	// the paths the alternatives are read for come from ONE PathSet made before the loop, joined with old and new content
 	if H != nil {
 		args := core.CallArgs(H)
 		var acc *ssa.Call
 		single := true
-		if len(args) >= 4 {
-			for _, o := range core.Origins(args[3]) {
-				if c, ok := o.(*ssa.Call); ok && core.CalleeIs(c, "tree.NewPathSet") && acc == nil {
-					acc = c
-				} else {
-					single = false
+		if len(args) >= 2 {
+			var visit func(v ssa.Value, d int)
+			visit = func(v ssa.Value, d int) {
+				for _, o := range core.Origins(v) {
+					c, ok := o.(*ssa.Call)
+					switch {
+					case core.IsNilConst(o):
+						// the nil a helper returns next to its error
+					case ok && core.CalleeIs(c, "tree.NewPathSet") && (acc == nil || acc == c):
+						acc = c
+					case ok && core.CalleeIs(c, "tree.PathSet.GetPaths") && d < 3:
+						visit(core.CallRecv(c), d+1)
+					default:
+						single = false
+					}
 				}
 			}
+			visit(args[1], 0)
 		}
-		r.Check(acc != nil && single, rule, core.Site(low, "involved paths accumulator"), w.InstrPos(H), "the involved-paths set handed to loadIntendedStoreHighestPrio must be the one accumulator created before the loop (not re-assigned per intent)")
+		r.Check(acc != nil && single, rule, core.Site(low, "involved paths accumulator"), w.InstrPos(H), "the involved-paths set the alternatives are read for must be the one accumulator created before the loop (not re-assigned per intent)")
 		if acc != nil {
 			joinedOld, joinedNew := false, false
 			for _, j := range core.CallsTo(low, "tree.PathSet.Join") {
